@@ -43,6 +43,10 @@ type Gen struct {
 
 	scrTrue, scrP2SHTrue, scrP2WSHTrue []byte
 	KeepViews                          bool
+	// NextGap, when non-zero, is the time distance to the parent used by the next Build with an
+	// automatic timestamp (then reset): lets tree workloads mix testnet minimum-difficulty blocks
+	// (gap > 20 min) with real-difficulty ones.
+	NextGap uint32
 }
 
 func DefaultParams(seed uint64, testnet bool) refchain.Params {
@@ -370,6 +374,10 @@ func (g *Gen) Build(s BlockSpec) *refchain.Block {
 	b.Time = s.Time
 	if b.Time == 0 {
 		b.Time = p.Time + 600
+		if g.NextGap != 0 {
+			b.Time = p.Time + g.NextGap
+			g.NextGap = 0
+		}
 		if int64(b.Time) > time.Now().Unix()+3000 {
 			b.Time = p.MTP() + 1 // parent is future-dated (clock-rule probe): stay below the two-hour limit
 		}
